@@ -190,7 +190,7 @@ def run(ctx):
     ctx.check(x.key == want_key and ok_rng, "ALIGN", f"{g.qualname} / ALIGN / principal_stress[(centre_x[row], centre_y[column])] = eig(tensor(row, column))", ctx.where(g, x.node),
               "keyed by the reported grid centres of the same (row, column)", f"principal stress stored under {T.show(T.alpha(x.key))[:160]}")
     ps_reset = [y for y in sg.stores("principal_stress") if y.base == SELF and not y.sub]
-    ctx.check(len(ps_reset) == 1 and ps_reset[0].value == ("dict", ()) and not ps_reset[0].conds() and ps_reset[0].node.lineno < x.node.lineno, "STATE",
+    ctx.check(len(ps_reset) == 1 and ps_reset[0].value == ("dict", ()) and not ps_reset[0].conds() and sg.pos(ps_reset[0]) < sg.pos(x), "STATE",
               f"{g.qualname} / STATE / principal_stress starts empty on every call", ctx.where(g),
               "self.principal_stress = {} before the loop", "principal_stress is not reset by calculate_stress_tensor: entries of an earlier grid survive a later call")
     st_store = [y for y in sg.stores("stress_tensor") if y.base == SELF and not y.sub]
